@@ -30,6 +30,7 @@ type tierSpec struct {
 	MapOrders  bool           `json:"maporders"`
 	SelectChoice bool         `json:"selectchoice"`
 	EnvLazy    bool           `json:"envlazy"`
+	EnvBoundOK bool           `json:"envbound_ok"`
 	NPBound    int            `json:"npbound"`
 	Race       bool           `json:"race"`
 	Skip       bool           `json:"skip"`
@@ -546,6 +547,7 @@ func runCheck(prop, tier string, seed int, repoDir string, spec propSpec, outDir
 		cfg.MapOrders = ts.MapOrders
 		cfg.SelectChoice = ts.SelectChoice
 		cfg.EnvLazy = ts.EnvLazy
+		cfg.EnvBoundOK = ts.EnvBoundOK
 		cfg.NPBound = ts.NPBound
 		cfg.Race = ts.Race
 		raceNow = ts.Race
